@@ -40,6 +40,47 @@ func c06Lifecycle(c *h.Ctx) {
 		}
 		return
 	}
+	// ---- inheritance through management: a route registered with Flags given explicitly as 0 is not
+	// child-inherit; a longer prefix with a route of its own must not inherit its face
+	for k := 0; k < c.Pick(3, 20); k++ {
+		id := fmt.Sprintf("lifecycle/flags%d", k)
+		c.Eval(1)
+		short, _ := enc.NameFromStr(fmt.Sprintf("/r/fl%d", k))
+		long, _ := enc.NameFromStr(fmt.Sprintf("/r/fl%d/x", k))
+		flags := uint64(r.Intn(4))
+		withFlags := r.Intn(4) != 0
+		a1 := &mgmt.ControlArgs{Name: short, FaceId: u64p(d.app.id), Cost: u64p(3)}
+		if withFlags {
+			a1.Flags = u64p(flags)
+		} else {
+			flags = 1 // the documented default: child-inherit
+		}
+		a2 := &mgmt.ControlArgs{Name: long, FaceId: u64p(d.app2.id), Cost: u64p(4), Flags: u64p(0)}
+		cp1, cp2 := c17Params(a1), c17Params(a2)
+		d.log = append(d.log, fmt.Sprintf("%s: rib/register %s face=%d flags=%s; rib/register %s face=%d flags=0", id, short, d.app.id, fmtU(a1.Flags), long, d.app2.id))
+		r1 := d.command(d.app, "/localhost/nfd", "rib", "register", &cp1, 15*time.Second)
+		r2 := d.command(d.app, "/localhost/nfd", "rib", "register", &cp2, 15*time.Second)
+		if r1 == nil || r2 == nil || r1.StatusCode != 200 || r2.StatusCode != 200 {
+			c.Inconclusive("lifecycle: rib/register got no 200")
+			return
+		}
+		var hops []uint64
+		for _, nh := range table.FibStrategyTable.FindNextHopsEnc(long) {
+			hops = append(hops, nh.Nexthop)
+		}
+		inherits := false
+		for _, h := range hops {
+			if h == d.app.id {
+				inherits = true
+			}
+		}
+		wantInherit := flags&1 != 0
+		c.Distinct(fmt.Sprintf("lifecycle|flags=%d|given=%v", flags, withFlags))
+		if inherits != wantInherit {
+			d.fail("C06:inheritance-through-management-wrong:"+algo, id, fmt.Sprintf("%s was registered on face %d with Flags %s (child-inherit %v); the longer prefix %s, which has a route of its own, forwards to faces %v", short, d.app.id, fmtU(a1.Flags), wantInherit, long, hops), nil)
+			return
+		}
+	}
 	fd := 60
 	for k := 0; k < c.Pick(10, 80); k++ {
 		id := fmt.Sprintf("lifecycle/r%d", k)
